@@ -140,9 +140,18 @@ var giantFamilies = []string{
 	"spans_with_attrs", "spans_with_events", "spans_with_links", "spans_attrs_or_events", "spans_plain",
 	"logs_with_attrs", "logs_plain", "metrics_plain", "metrics_with_points", "resources_traces", "resources_logs", "resources_metrics",
 	"scopes_traces", "scopes_logs", "scopes_metrics",
+	// children tables (32-bit ids): one parent with N attribute-bearing
+	// children - representable, so no refusal is demanded; no panic is
+	"events_with_attrs", "links_with_attrs", "points_with_attrs", "exemplars_with_attrs",
 }
 
 func giantSignal(family string) string {
+	switch family {
+	case "events_with_attrs", "links_with_attrs":
+		return Traces
+	case "points_with_attrs", "exemplars_with_attrs":
+		return Metrics
+	}
 	switch {
 	case strings.HasPrefix(family, "spans"), strings.HasSuffix(family, "_traces"):
 		return Traces
@@ -161,6 +170,8 @@ func (g Giant) mustRefuse() bool {
 	switch g.Family {
 	case "spans_plain", "logs_plain":
 		return false // no attribute-bearing parents: nothing to number
+	case "events_with_attrs", "links_with_attrs", "points_with_attrs", "exemplars_with_attrs":
+		return false // 32-bit ids: representable
 	}
 	return g.N > 65536
 }
@@ -169,6 +180,8 @@ func (g Giant) mustAccept() bool {
 	switch g.Family {
 	case "spans_plain", "logs_plain":
 		return true
+	case "events_with_attrs", "links_with_attrs", "points_with_attrs", "exemplars_with_attrs":
+		return false // either outcome is accepted, only a panic is not
 	}
 	return g.N <= 65535
 }
@@ -176,6 +189,42 @@ func (g Giant) mustAccept() bool {
 func buildGiant(g Giant) Input {
 	n := g.N
 	switch g.Family {
+	case "events_with_attrs", "links_with_attrs":
+		td := ptrace.NewTraces()
+		sp := td.ResourceSpans().AppendEmpty().ScopeSpans().AppendEmpty().Spans().AppendEmpty()
+		sp.SetName("s")
+		for i := 0; i < n; i++ {
+			if g.Family == "events_with_attrs" {
+				ev := sp.Events().AppendEmpty()
+				ev.SetName("e")
+				ev.Attributes().PutInt("i", int64(i%7))
+			} else {
+				lk := sp.Links().AppendEmpty()
+				lk.Attributes().PutInt("i", int64(i%7))
+			}
+		}
+		return Input{Signal: Traces, Traces: td}
+	case "points_with_attrs", "exemplars_with_attrs":
+		md := pmetric.NewMetrics()
+		m := md.ResourceMetrics().AppendEmpty().ScopeMetrics().AppendEmpty().Metrics().AppendEmpty()
+		m.SetName("m")
+		g0 := m.SetEmptyGauge()
+		if g.Family == "points_with_attrs" {
+			for i := 0; i < n; i++ {
+				dp := g0.DataPoints().AppendEmpty()
+				dp.SetIntValue(int64(i % 5))
+				dp.Attributes().PutInt("i", int64(i%7))
+			}
+		} else {
+			dp := g0.DataPoints().AppendEmpty()
+			dp.SetIntValue(1)
+			for i := 0; i < n; i++ {
+				ex := dp.Exemplars().AppendEmpty()
+				ex.SetIntValue(int64(i % 5))
+				ex.FilteredAttributes().PutInt("i", int64(i%7))
+			}
+		}
+		return Input{Signal: Metrics, Metrics: md}
 	case "spans_with_attrs", "spans_with_events", "spans_with_links", "spans_attrs_or_events", "spans_plain":
 		td := ptrace.NewTraces()
 		ss := td.ResourceSpans().AppendEmpty().ScopeSpans().AppendEmpty()
